@@ -164,10 +164,7 @@ func run(r *vt.Run, t vt.TB, s spec) {
 			fail("open", "NonRowidTable(w): %v", err)
 			return
 		}
-		var attrs []refcmp.KeyCol
-		for i := 0; i < w.Spec.PKCols; i++ {
-			attrs = append(attrs, refcmp.KeyCol{Collate: w.Spec.PKColl[i], Desc: w.Spec.PKDesc[i]})
-		}
+		attrs := w.PKKey // (DESC is ignored in files of a schema format before 4)
 		addIndexOps("w", ix, w.Entries, attrs)
 		ops = append(ops, op{name: "SelectDone(w)", high: true, run: func(cb func(string) bool) error {
 			return hl.SelectDone("w", func(row sqlittle.Row) bool { return cb(render(0, row)) }, w.Spec.ColNames()...)
